@@ -716,6 +716,102 @@ class FG:
         if not rev and not shift and lo != 0 and lo & (lo - 1) == 0 and lo != 1:
             self.p.features.add('imm-arith:pow2:' + op)
 
+    def g_pressure(self):
+        """register pressure with multi-slot values: 13..22 integer (or 15..22 double) values live at the same
+        time - more than there are hard registers, so several of them are spilled to stack slots - consumed one
+        by one in a random order (staggered live ranges: slots become free one after the other), while long
+        double values (two stack slots each, always in memory) are created, combined and consumed at random
+        points in between.  Every value ends up in an accumulator that is logged / kept."""
+        r = self.rng
+        dbl = bool(self.DR) and self.opts.get('fp', True) and r.random() < 0.3
+        n = r.randrange(15, 23) if dbl else r.randrange(13, 23)
+        acc = R(self.new_local('pa'))
+        self.emit('mov', acc, self.X_())
+        pv = []
+        for i in range(n):
+            v = R(self.new_local('pv', 'd' if dbl else 'i64'))
+            if dbl:
+                t = R(self.new_local('pt'))
+                self.emit('and', t, self.X_(), Imm(r.choice([0xff, 0xffff, 0xffffff])))
+                self.emit('add', t, t, Imm(i))
+                self.emit('i2d', v, t)
+            else:
+                self.emit(r.choice(['add', 'xor', 'sub']), v, self.X_() if not self.O or r.random() < 0.7
+                          else R(r.choice(self.O)), Imm(r.randrange(1, 1000) * (i + 1)))
+            pv.append(v)
+        # the order in which the values die; some are read more than once (hotter: assigned first)
+        order = list(pv)
+        r.shuffle(order)
+        nld = r.choice([1, 1, 2, 2, 3])
+        ld_def_at = sorted(r.randrange(0, n) for _ in range(nld))
+        lds = []            # (reg, position after which it is consumed)
+        hot = r.sample(pv, r.randrange(0, 5))
+
+        def consume(v):
+            if dbl:
+                t = R(self.new_local('pt'))
+                self.emit('d2i', t, v)
+                self.emit(r.choice(['add', 'xor']), acc, acc, t)
+            else:
+                self.emit(r.choice(['add', 'xor', 'sub']), acc, acc, v)
+
+        def def_ld(pos):
+            l = R(self.new_local('pl', 'ld'))
+            k = r.random()
+            live = order[pos:]
+            if dbl and live and k < 0.5:
+                self.emit('d2ld', l, r.choice(live))
+            elif not dbl and live and k < 0.4:
+                self.emit('i2ld', l, r.choice(live))              # any int64: exact in 64 bits of significand
+            else:
+                t = R(self.new_local('pt'))
+                self.emit('and', t, self.X_(), Imm(0x3fffffff))
+                self.emit('i2ld', l, t)
+                small.add(l.name)
+            lds.append([l, r.randrange(pos, n + 1)])
+
+        def use_ld(l):
+            t = R(self.new_local('pt'))
+            if r.random() < 0.25:
+                l2 = R(self.new_local('pl', 'ld'))
+                self.emit('ldmov', l2, l); l = l2
+            if r.random() < 0.2 and l.name in small:
+                self.emit('ldneg', l, l)
+            if dbl and r.random() < 0.4:
+                d = R(self.new_local('pd', 'd'))
+                self.emit('ld2d', d, l)
+                self.emit('d2i', t, d)
+            else:
+                self.emit('ld2i', t, l)
+            self.emit(r.choice(['add', 'xor']), acc, acc, t)
+
+        small = set()
+        for pos in range(n + 1):
+            for k in ld_def_at:
+                if k == pos: def_ld(pos)
+            # long double arithmetic on two live small values: a third one (exact or rounded alike by Sem and x87)
+            sm = [l for l, _ in lds if l.name in small]
+            if len(sm) >= 2 and r.random() < 0.2:
+                a, b = r.sample(sm, 2)
+                c = R(self.new_local('pl', 'ld'))
+                self.emit(r.choice(['ldadd', 'ldsub', 'ldmul']), c, a, b)
+                lds.append([c, r.randrange(pos, n + 1)])
+            for ent in list(lds):
+                if ent[1] == pos:
+                    use_ld(ent[0]); lds.remove(ent)
+            if pos < n:
+                v = order[pos]
+                if v in hot and pos + 1 < n and r.random() < 0.7:
+                    self.emit('xor' if not dbl else 'mov', R(self.new_local('pt')) if dbl else acc,
+                              *( [R(self.rng.choice(self.X))] if dbl else [acc, v]))
+                consume(v)
+        for ent in lds:
+            use_ld(ent[0])
+        if r.random() < 0.5:
+            self.emit('call', Ref('p_exv'), Ref('exv'), acc, acc)
+        self.emit('mov', self.X_(), acc)
+        self.p.features.add('pressure:%s+ld' % ('double' if dbl else 'int'))
+
     def g_load(self):
         ty = self.rng.choice(INT_TYPES)
         m = self.mem_operand(ty)
@@ -1082,7 +1178,7 @@ class FG:
         kinds = [(self.g_alu64, 14), (self.g_alu32, 12), (self.g_neg, 2), (self.g_ext, 6), (self.g_cmp, 7),
                  (self.g_ext_chain, 3), (self.g_reload, 3), (self.g_overlap, 5),
                  (self.g_shift, 7), (self.g_div, 7), (self.g_imm_arith, self.opts.get('w_imm_arith', 8)), (self.g_load, 8), (self.g_store, 9), (self.g_mov, 5),
-                 (self.g_ovf, 2), (self.g_local_alloca, 2), (self.g_counted_loop, 3), (self.g_call_ext, 3),
+                 (self.g_ovf, 2), (self.g_pressure, self.opts.get('w_pressure', 3)), (self.g_local_alloca, 2), (self.g_counted_loop, 3), (self.g_call_ext, 3),
                  (self.g_call_mir, self.opts.get('w_call', 4)), (self.g_self_call, 1)]
         if self.LD or any(self.CR.values()):
             kinds.append((self.g_param_write, self.opts.get('w_param_write', 8)))
